@@ -238,7 +238,7 @@ func genC17(r *Rng, tier string) []Case {
 		mk(3, mp(tx("cert"), bs(c0), tx("ocsp"), bs([]byte("o"))), mp(tx("cert"), bs(c1))),
 		mk(3, mp(tx("cert"), bs(c0), tx("ocsp"), bs([]byte("o"))), mp(tx("cert"), bs(c1), tx("ocsp"), bs([]byte("p")))),
 		mk(3, mp(tx("cert"), bs(c0), tx("ocsp"), bs([]byte("o")))),
-		mk(1), mk(0), mk(2), mk(1 << 63), mk(1<<64 - 1, mp(tx("cert"), bs(c0), tx("ocsp"), bs([]byte("o")))),
+		mk(1), mk(0), mk(2), mk(1 << 63), mk(1<<64-1, mp(tx("cert"), bs(c0), tx("ocsp"), bs([]byte("o")))),
 		mk(2, mp(tx("cert"), bs([]byte("not a certificate")), tx("ocsp"), bs([]byte("o")))),
 		mk(2, mp(bs([]byte("cert")), bs(c0), tx("ocsp"), bs([]byte("o")))),
 		mk(2, mp(tx("cert"), tx("text not bytes"), tx("ocsp"), bs([]byte("o")))),
